@@ -28,6 +28,7 @@ pub enum Act {
     Counts(usize),
     WCounts(usize),
     SetPanic(usize),
+    SetShallow(usize),
     UpgradeField(usize),
     CloneField(usize),
 }
@@ -37,6 +38,8 @@ pub enum Op {
     Act(Act),
     SetScript(usize, Vec<Act>),
     Shuffle(usize, usize),
+    /// harness-only: end of a truncated case, leak everything still held
+    LeakWorld,
 }
 
 fn n(s: &str) -> Option<usize> {
@@ -72,6 +75,7 @@ pub fn parse_act(ws: &[&str]) -> Option<Act> {
         ["counts", a] => Counts(n(a)?),
         ["wcounts", a] => WCounts(n(a)?),
         ["setPanic", a] => SetPanic(n(a)?),
+        ["setShallow", a] => SetShallow(n(a)?),
         ["upgradeField", a] => UpgradeField(n(a)?),
         ["cloneField", a] => CloneField(n(a)?),
         _ => return None,
@@ -108,6 +112,7 @@ impl Act {
             Counts(a) => format!("counts {}", a),
             WCounts(a) => format!("wcounts {}", a),
             SetPanic(a) => format!("setPanic {}", a),
+            SetShallow(a) => format!("setShallow {}", a),
             UpgradeField(a) => format!("upgradeField {}", a),
             CloneField(a) => format!("cloneField {}", a),
         }
@@ -130,6 +135,7 @@ pub fn parse_op(line: &str) -> Option<Op> {
             Some(Op::SetScript(n(q)?, acts))
         }
         ["shuffle", a, b] => Some(Op::Shuffle(n(a)?, n(b)?)),
+        ["leakworld"] => Some(Op::LeakWorld),
         _ => parse_act(&ws).map(Op::Act),
     }
 }
